@@ -15,6 +15,7 @@ L5 (parse side): `fromCst` for the container fragment — a transliteration, bug
   * `expressions/with_statement.py` `WithStatement.from_cst`, `expressions/assertion.py` `Assertion.from_cst`
   * `expressions/select.py`      `Select.from_cst`
   * `expressions/unary.py`       `UnaryExpression.from_cst`
+  * `expressions/binary.py`      `BinaryExpression.from_cst` (without comments around the operator)
   * `expressions/function/definition.py` `FunctionDefinition.from_cst` (identifier argument, `_collect_colon_trivia`)
                                  (with `split_inline_comments`, `append_gap_trivia`)
 
@@ -73,6 +74,9 @@ inductive Expr where
   | lam (name : Text) (bcc : List Trivia) (bcGap : Text) (breaks : Nat) (body : Expr) (before after : List Trivia)
   /-- `UnaryExpression(operator, expression, operand_gap, between)` -/
   | un (op : Text) (expr : Expr) (gap : Text) (between : List Trivia) (before after : List Trivia)
+  /-- `BinaryExpression(operator=Operator(name), left, right, operator_gap_lines, right_gap_lines)`; the
+      operator carries no trivia (no comments around it in the fragment) -/
+  | bin (op : Text) (left right : Expr) (opGapLines rightGapLines : Nat) (before after : List Trivia)
 
 /-- `NixSourceCode(expressions, trailing)` -/
 structure Src where
@@ -80,6 +84,7 @@ structure Src where
   trailing : List Trivia
 
 def Expr.before : Expr → List Trivia
+  | .bin _ _ _ _ _ b _ => b
   | .un _ _ _ _ b _ => b
   | .lam _ _ _ _ _ b _ => b
   | .leaf _ _ b _ => b
@@ -94,6 +99,7 @@ def Expr.before : Expr → List Trivia
   | .selOr _ _ _ _ _ _ _ b _ => b
 
 def Expr.after : Expr → List Trivia
+  | .bin _ _ _ _ _ _ a => a
   | .un _ _ _ _ _ a => a
   | .lam _ _ _ _ _ _ a => a
   | .leaf _ _ _ a => a
@@ -108,6 +114,7 @@ def Expr.after : Expr → List Trivia
   | .selOr _ _ _ _ _ _ _ _ a => a
 
 def Expr.setBefore : Expr → List Trivia → Expr
+  | .bin o l r x y _ a, b => .bin o l r x y b a
   | .un o e g bt _ a, b => .un o e g bt b a
   | .lam n c g k bd _ a, b => .lam n c g k bd b a
   | .leaf k t _ a, b => .leaf k t b a
@@ -122,6 +129,7 @@ def Expr.setBefore : Expr → List Trivia → Expr
   | .selOr e ats g ab d dg db _ a, b => .selOr e ats g ab d dg db b a
 
 def Expr.setAfter : Expr → List Trivia → Expr
+  | .bin o l r x y b _, a => .bin o l r x y b a
   | .un o e g bt b _, a => .un o e g bt b a
   | .lam n c g k bd b _, a => .lam n c g k bd b a
   | .leaf k t b _, a => .leaf k t b a
@@ -437,6 +445,14 @@ def Cst.parse : Cst → Except Err Expr
     match e.parse with
     | .error err => .error err
     | .ok ee => .ok (.un op ee g (collectTrivia c g) [] [])
+  | .bin l _ g1 op _ g2 r =>
+    -- `BinaryExpression.from_cst` without comments: the line breaks in the two gaps are counted (`gap_line_info`)
+    match l.parse with
+    | .error err => .error err
+    | .ok le =>
+      match r.parse with
+      | .error err => .error err
+      | .ok re => .ok (.bin op le re (g1.count '\n') (g2.count '\n') [] [])
 /-- the loop of `parse_delimited_sequence` -/
 def Items.parseSeq : Items → Mode → SeqSt → Except Err SeqSt
   | .nil, _, st => .ok st
